@@ -85,6 +85,10 @@ def own_idset(ctx, r):
                 if m == "clear":
                     cleared = {y["recv"]["f"] for y in q.walk(f["body"]) if y["k"] == "MethodCall" and y["m"] == "clear" and y["recv"]["k"] == "Field"}
                     r.ob(set(ptr_fields) <= cleared, f"id_set.rs:{f['name']}:partial-clear", IDSET, x["l"], f"{f['name']} clears a buffer but not {sorted(set(ptr_fields) - cleared)}: pointers to freed values remain", sample="clear(): buffers and pointer tables cleared together")
+            # the same buffers reached through another value of the type (`ret.current_buf` in clone, `other.old_bufs`): never reallocated either
+            if x["k"] == "MethodCall" and x["recv"]["k"] == "Field" and q.show(x["recv"]["e"]) != "self" and x["recv"]["f"] in buf_fields and x["m"] in REALLOCATING:
+                r.find(f"id_set.rs:{f['name']}:{q.show(x['recv']['e'])}.{x['recv']['f']}.{x['m']}", IDSET, x["l"],
+                       f"{f['name']} calls {q.show(x['recv'])}.{x['m']}(): the buffer of that set is already pointed into by its `{'`, `'.join(ptr_fields)}`; a reallocation (here possibly moving the block) leaves every one of those pointers dangling")
     r.count("method calls on the buffers", n_calls, 8, IDSET)
     # duplicate path: the popped value's pointer is not stored
     if ins is not None:
